@@ -7,31 +7,31 @@ NOTE_COMMON = ("Trusted: Coq 8.16.1 kernel (+vm_compute), the Go->Coq translator
                "The hand-written model is tied to the code by differential correspondence on generated cases, not by proof. ")
 CLAIMED = {
  "C01": dict(
-   text="Theorems (Props/C01.v): serialise(parse x) ++ remainder = x for certificate, signature (every type code), every fixed-size structure, strings; the composite parsers (keys-and-cert, leasesets, router info/address, mapping) are modelled in full and tied to the code by correspondence on every generated input, with the property oracle Bytes()++rem==input evaluated on the implementation for every accepted input.",
+   text="Theorems (Props/C01.v): serialise(parse x) ++ remainder = x for certificate, key certificate, keys-and-cert, destination, router identity (every accepted input, every key-type pair, any certificate excess), signature (every type code), offline signature, every fixed-size structure, strings, EncryptedLeaseSet, LeaseSet (prefix: the reader returns no remainder); and for mapping, RouterAddress, RouterInfo, LeaseSet2 and MetaLeaseSet exactly up to the slack the mapping parser leaves inside a declared size: exists b n, Bytes = b, |x| = |b| + n + |r|, and b ++ r = x iff n = 0. All 24 parsers are additionally run against the implementation on well-formed, appended, truncated, mutated and raw inputs with the oracle Bytes()++rem==input.",
    design="8/C01", technique="Coq proof over executable model + differential correspondence + implementation-side round-trip oracle",
-   note=NOTE_COMMON + "Composite-parser round-trip theorems are in progress; until then those parsers are decided by correspondence+oracle only (stated in the evidence). Known finding D2 (mapping slack) is reported as KNOWN-FINDING."),
+   note=NOTE_COMMON + "Known finding D2 (mapping slack) is reported as KNOWN-FINDING; its exact extent is the n of the theorems above."),
  "C02": dict(
    text="Theorems (Props/C02.v): encoders written from the I2P common-structures specification text (Spec/Wire.v, independent of the model's own serialisers) are accepted by the model's parsers followed by arbitrary trailing bytes, consume exactly the encoding and expose exactly the encoded fields: certificate (every type and payload length), key certificate, the 384-byte identity block for all 30 supported (signing, encryption) type pairs (encryption key at the start, signing key at the end, padding between), signature (every type), offline signature, Lease, Lease2. The harness carries a second, independently written Go spec encoder and spec decoder: spec-encoded Destination/RouterIdentity/LeaseSet/LeaseSet2/Meta/Encrypted/RouterAddress/RouterInfo/Mapping values are parsed by the library and compared field by field, and values built with the library's constructors are serialised and decoded by the spec decoder.",
    design="8/C02", technique="Coq proof that the model's parsers accept independent spec encoders + differential correspondence + spec encoder/decoder oracle on the implementation",
    note=NOTE_COMMON + "The specification itself is transcribed by hand twice (Spec/Wire.v, harness/spec.go); composite structures (LeaseSet, LeaseSet2, RouterInfo) are covered at the correspondence/oracle level, the theorems cover the leaf and identity layouts."),
  "C03": dict(
-   text="Theorems (Props/C03.v): append-invariance implies prefix-freeness for every parser (general lemma); append-invariance + prefix-freeness for fixed-size parsers and signatures (all type codes); certificate consumed extent and append behaviour. All 24 parsers are run on w, w++tail and every/many cut points of w with the property as oracle.",
+   text="Theorems (Props/C03.v): append-invariance implies prefix-freeness for every parser (general lemma, also in the relational form for values that keep a view of trailing bytes); append-invariance and prefix-freeness for fixed-size parsers, signature (all type codes), certificate, key certificate, keys-and-cert, destination, router identity, offline signature, string, mapping, RouterAddress, EncryptedLeaseSet (exactly), LeaseSet2, MetaLeaseSet, RouterInfo (identity up to its certificate's view of trailing bytes), LeaseSet (ignores what follows the signature). All 24 parsers are run on w, w++tail and every/many cut points of w with the property as oracle.",
    design="8/C03", technique="Coq proof (framing lemmas) over executable model + differential correspondence + framing oracle on the implementation",
    note=NOTE_COMMON + "Known finding D6 (whole-input minimum-size guards) is reported as KNOWN-FINDING."),
  "C04": dict(
-   text="Theorems (Props/C04.v): the model's only sources of Panic are the slice/index primitives; parsers proved Panic-free so far: fixed-size, integer, string, certificate, signature for every integer type code; size lookups never return negative or huge sizes. Every parser is additionally executed under recover() with a deadline on generated/mutated/raw inputs and all 65,536 type codes, and every exported argument-free method of every accepted value is invoked by reflection.",
+   text="Theorems (Props/C04.v): the model's only sources of Panic are the slice/index primitives, and NO modelled parser can reach one, for any bytes (byte values not even assumed < 256) and every integer type code: fixed-size, integer, string, certificate, key certificate, keys-and-cert, destination, router identity, signature, offline signature, RouterAddress, RouterInfo, LeaseSet, LeaseSet2, MetaLeaseSet, EncryptedLeaseSet; size lookups never return negative or huge sizes; the mapping loop never exhausts its fuel and every continuing iteration consumes a byte. Every parser is additionally executed under recover() with a deadline on generated/mutated/raw inputs and all 65,536 type codes, and every exported argument-free method of every accepted value is invoked by reflection.",
    design="8/C04", technique="Coq proof (typed partiality) over executable model + three-valued correspondence + reflection sweep",
    note=NOTE_COMMON + "Go runtime behaviour outside the slice/index discipline (allocation, stack, logger) is not modelled; wall-clock bound is checked by deadline only."),
  "C05": dict(
    text="Theorems (Props/C05.v), for an ARBITRARY signature scheme: a reported success of LeaseSet2/MetaLeaseSet/EncryptedLeaseSet/LeaseSet/RouterInfo/OfflineSignature verification implies a valid signature under the contained identity's (or blinded) key over prefix||serialisation-minus-signature, and, when a transient key signs, additionally a valid offline signature under the identity key over expires||type||transient key. The model emits the verification queries each Verify makes; on ~1,800 authentic/forged/mutated structures built and signed by the harness with crypto/ed25519 the queries are answered independently and the conjunction compared with the library's verdict; the soundness oracle re-verifies over the raw received bytes.",
    design="8/C05", technique="Coq proof over a verification-query model (scheme abstract) + query-level correspondence answered by independent Ed25519 + raw-bytes authenticity oracle",
-   note=NOTE_COMMON + "Unforgeability is not claimed: 'flipping a bit turns success into failure' holds only under the scheme's unforgeability. 'Over exactly the bytes parsed from' rests on C01 for the composite parsers (correspondence-level so far). Only Ed25519-family keys are exercised with valid signatures; DSA/ECDSA only with random signatures. Known finding D2 reported as KNOWN-FINDING."),
+   note=NOTE_COMMON + "Unforgeability is not claimed: 'flipping a bit turns success into failure' holds only under the scheme's unforgeability. 'Over exactly the bytes parsed from' is a theorem (C05_*_over_received_bytes) for every parsed structure whose re-serialisation reproduces the consumed bytes (C01: always for LeaseSet/EncryptedLeaseSet, otherwise iff no mapping slack). Only Ed25519-family keys are exercised with valid signatures; DSA/ECDSA only with random signatures. Known finding D2 reported as KNOWN-FINDING."),
  "C06": dict(
-   text="Theorems (Props/C06.v): for any scheme satisfying verify(pub sk, m, sign(sk,m)), an EncryptedLeaseSet signed as the library signs (0x05||content) and an OfflineSignature created as the library creates it verify. RouterInfo, LeaseSet, EncryptedLeaseSet (with/without offline keys) and OfflineSignature are built with the library's signing constructors from generated admissible arguments (options incl. empty values and short keys, 0..255 addresses, 0..16 leases) and verified before and after serialise+parse.",
+   text="Theorems (Props/C06.v): for any scheme satisfying verify(pub sk, m, sign(sk,m)), an EncryptedLeaseSet, an OfflineSignature, a RouterInfo and a LeaseSet signed as the library signs them (serialisation without the signature, under the identity's key) verify; verification is a function of the serialisation, the identity key and the signature only, so C01 carries it over the wire. RouterInfo, LeaseSet, EncryptedLeaseSet (with/without offline keys) and OfflineSignature (every transient key type) are built with the library's signing constructors from generated admissible arguments and verified before and after serialise+parse.",
    design="8/C06", technique="Coq proof (sign-then-verify under the scheme's correctness law) + constructor/verify/wire oracle on the implementation",
-   note=NOTE_COMMON + "RouterInfo/LeaseSet sign-then-verify theorems need the composite round-trip lemmas and are decided by the oracle for now. Known finding D7 (NewLeaseSet2 placeholder signature) reported as KNOWN-FINDING."),
+   note=NOTE_COMMON + "Known finding D7 (NewLeaseSet2 placeholder signature) reported as KNOWN-FINDING. A router without addresses is refused by NewRouterInfo (as RouterInfo.Validate requires, C14) and produces nothing C06 speaks about."),
  "C07": dict(
-   text="Theorems (Props/C07.v): two identities compare equal exactly when their serialisations are equal; base32 address and base64 form depend on the identity only through (the hash of) its bytes. On generated identities of every destination/router key-type pair (with and without extra certificate payload) Hash/IdentHash are compared with crypto/sha256 of the input bytes, the address with an independent bit-level base32, Base64 is decoded back, and single-byte differences in key, padding and certificate regions must change Equals, hash and address.",
+   text="Theorems (Props/C07.v): the base32 address of a 32-byte hash is the unpadded I2P base32 of the hash followed by the suffix, has 60 characters, decodes back to the hash and is therefore injective; the base64 form of a parsed identity decodes to exactly the consumed wire bytes and is injective; two identities compare equal exactly when their serialisations are equal, and two accepted identities serialise equally iff their consumed bytes are equal. On generated identities of every destination/router key-type pair Hash/IdentHash are compared with crypto/sha256 of the input bytes, the address with an independent bit-level base32, and single-byte differences in key, padding and certificate regions must change Equals, hash and address.",
    design="8/C07", technique="Coq proof over executable model (hash external) + differential correspondence + independent SHA-256/base32 oracle",
    note=NOTE_COMMON + "SHA-256 is external (an input of the model's address function); injectivity of hash/address is up to SHA-256 collisions."),
  "C08": dict(
@@ -39,29 +39,29 @@ CLAIMED = {
    design="8/C08", technique="Coq proof over a provenance (copy-vs-view) model + buffer-overwrite correspondence against the implementation",
    note=NOTE_COMMON + "Partial: Go's memory model is represented only by the provenance abstraction written from the code; the tie is the buffer-overwrite correspondence."),
  "C09": dict(
-   text="Theorems (Props/C09.v): for EVERY integer code the library's deny sets (regenerated from the Go source) equal the specification's; every Destination/RouterIdentity returned by the modelled readers/constructors carries only permitted types; permitted types are never denied. All known codes x all known codes (plus sampled unknown codes) are pushed through every API path that yields a Destination or RouterIdentity.",
+   text="Theorems (Props/C09.v): for EVERY integer code the library's deny sets (regenerated from the Go source) equal the specification's; every Destination/RouterIdentity returned by the readers/constructors, called directly or embedded in the parsing of LeaseSet, LeaseSet2, MetaLeaseSet and RouterInfo, carries only permitted types; permitted types are never denied. All known codes x all known codes (plus sampled unknown codes) are pushed through every API path that yields a Destination or RouterIdentity.",
    design="8/C09", technique="Coq proof by reflection over translator-regenerated deny tables + exhaustive path sweep",
    note=NOTE_COMMON),
  "C10": dict(
-   text="Theorem (Props/C10.v): for every code 0..65535 all size lookups regenerated from the Go source (key certificate maps, signature switch, offline-signature switches, crypto size maps) agree with each other and with the specification's table written independently in Coq; out-of-range codes are errors. Translation validation: the Go lookups are called on all 65,536 codes and compared with the regenerated tables; key-block layout checked on generated identities of every supported pair.",
+   text="Theorems (Props/C10.v): for every integer code all size lookups regenerated from the Go source agree with each other and with the specification's table written independently in Coq; for all 30 supported type pairs the parser puts the encryption key at the start of the 384-byte block, the signing key at its end, the padding exactly between, with declared sizes equal to the returned key lengths, and the serialiser lays the block out the same way. Translation validation: the Go lookups are called on all 65,536 codes (key-certificate methods also with independent partner codes) and compared with the regenerated tables.",
    design="8/C10", technique="Coq proof by reflection over translator-regenerated tables + exhaustive translation validation",
    note=NOTE_COMMON),
  "C11": dict(
-   text="Theorems (Props/C11.v): the encoding order is sorted by key and a permutation of the input (stable insertion sort = sort.SliceStable on keys); the size field equals the number of bytes that follow; over-limit strings (>255) and >1000 pairs are rejected. The full round-trip statement is stated (Definition) and decided on model and implementation by correspondence + the round-trip/canonicity oracle on generated maps, incl. totals 65,528..66,048 bytes and 999..1,100 pairs.",
+   text="Theorems (Props/C11.v): GoMapToMapping followed by ReadMapping returns exactly the serialised pairs with NO errors for every association list with distinct keys the constructor accepts (strings up to 255 bytes incl. '=' and ';', empty values, one-byte keys, up to 1000 pairs, up to 65,535 bytes); the encoding is sorted by key and a permutation of the input; the size field equals the number of bytes that follow; the parser inverts the serialiser on every valid pair list followed by anything; over-limit inputs are rejected; an error-free parse re-serialises to its input iff the declared size holds no slack (and the refutation witness for the slack case); the parser terminates.",
    design="8/C11", technique="Coq proof (sorting, size field, rejection) + differential correspondence + round-trip/canonicity oracle",
-   note=NOTE_COMMON + "Round-trip theorem for all maps not yet proved (stated). Known finding D2 reported as KNOWN-FINDING."),
+   note=NOTE_COMMON + "Known finding D2 reported as KNOWN-FINDING (C11_reserialise_refuted is its witness inside Coq)."),
  "C12": dict(
    text="Theorems (Props/C12.v) over the Gallina model of package data: encode/decode inverse for every width 1..8 and every value, rejection of out-of-domain arguments, fixed-width helpers, millisecond dates for every int64 >= 0, strings of every length <= 255 with any remainder, short-input behaviour of every reader, full 64-bit range of UintSafe. Unbounded quantifiers, kernel-checked; model tied to /repo by the regenerated constants and by running model and implementation on the same ~59k cases.",
    design="8/C12", technique="Coq proof over executable model + differential correspondence (extracted OCaml and in-Coq vm_compute) + translator-regenerated constants",
    note=NOTE_COMMON + "Go time.Unix/UnixMilli arithmetic is modelled (int64 wrap explicit), not verified."),
  "C13": dict(
-   text="Theorems (Props/C13.v): digits/value inverse for any base; a full 3-byte (5-byte) group decodes back from its 4 (8) characters; every digit's character decodes to that digit and only alphabet characters decode at all; data after base32 padding is rejected; size-guarded variants reject empty and oversize input exactly at the limits and otherwise equal the unguarded functions. The decoders are modelled after encoding/base32|base64's control flow; model and implementation agree on ~92k cases incl. every byte value at every position of short encodings; encoders are compared with an independent bit-level encoder, exhaustively for inputs of length <= 2.",
+   text="Theorems (Props/C13.v): decode(encode x) = x for EVERY byte string, for base64, padded base32 (through DecodeString incl. its padding pre-check) and unpadded base32; padded = unpadded ++ '='...; length formula; output uses alphabet characters only; only alphabet characters decode; data after base32 padding is rejected; size-guarded variants reject empty and oversize input exactly at the limits. The decoders are modelled after encoding/base32|base64's control flow; model and implementation agree on ~97k cases incl. every byte value at every position of short encodings and line breaks interleaved with padding; encoders are compared with an independent bit-level encoder, exhaustively for inputs of length <= 2.",
    design="8/C13", technique="Coq proof (arithmetic group codec, alphabet reflection, guards) + differential correspondence + independent bit-level encoder oracle",
-   note=NOTE_COMMON + "The whole-string round trip is stated (Definition) and decided by correspondence + oracle; Go's stdlib codecs are modelled, not verified. A truncated unpadded base32 quantum (1, 3 or 6 characters) is dropped silently by the stdlib and accepted (documented)."),
+   note=NOTE_COMMON + "Go's stdlib codecs are modelled, not verified. A truncated unpadded base32 quantum (1, 3 or 6 characters) is dropped silently by the stdlib and accepted (documented)."),
  "C14": dict(
-   text="Theorems (Props/C14.v): Signature, OfflineSignature (for expires != 0), KeysAndCert (non-nil keys) and Certificate constructors produce values that satisfy their validators; each documented size/type defect is rejected by constructor and validator alike; the two recorded gaps are stated as *_refuted theorems with their witnesses. Every structure with a constructor and a Validate method is exercised with valid tuples and every single-defect variant: constructor success => Validate => serialise => parse with empty remainder => same bytes.",
+   text="Theorems (Props/C14.v): Signature, OfflineSignature (incl. parse back), KeysAndCert (full chain: validates, serialises, parses back with any trailing bytes to the same keys, padding and bytes, for every key-type pair the reader supports), Certificate and Mapping constructors; each documented size/type defect is rejected by constructor and validator alike; the three recorded gaps are *_refuted theorems with their witnesses. Every structure with a constructor and a Validate method is exercised with valid tuples and every single-defect variant, KeysAndCert over every KNOWN (not only supported) type pair with and without excess key-certificate payload.",
    design="8/C14", technique="Coq proof over executable constructor/validator model + differential correspondence + constructor/validate/round-trip oracle",
-   note=NOTE_COMMON + "Time-dependent expiry checks excluded. Known findings D11 (nil keys) and D21 (zero expires) are reported as KNOWN-FINDING; D16 and D17 were fixed."),
+   note=NOTE_COMMON + "Time-dependent expiry checks excluded. Known findings D11 (nil keys), D21 (zero expires) and D22 (key types the reader cannot construct) are reported as KNOWN-FINDING; D16 and D17 were fixed."),
  "C15": dict(
    text="Theorems (Props/C15.v): published+expires exact for all 2^32 x 2^16 field values (Go's int64 Duration arithmetic modelled explicitly, no wrap); Lease / Lease2 / OfflineSignature / meta-entry conversions exact; NewLease2 stores in-range times exactly and rejects all others; newest/oldest expiration are members bounding all other leases; expired iff strictly past.",
    design="8/C15", technique="Coq proof (integer arithmetic with explicit int64 wrap) + differential correspondence + exactness oracle",
@@ -79,7 +79,7 @@ CLAIMED = {
    design="8/C18", technique="Coq proof (interleaving non-interference) over an SSA effect summary regenerated from source + frame check + race-detector run",
    note=NOTE_COMMON + "Partial: the effect summary is a static over-approximation and the reviewed-site list (Model/EffectsReviewed.v) is trusted; Go's memory model is abstracted to sequentially consistent atomic steps; the scheduler is not modelled."),
  "C19": dict(
-   text="Theorems (Props/C19.v): integer constructors identical; exact-length signature constructor accepts exactly what the reader consumes completely (all type codes); destination/router-identity readers are the generic reader plus filter; key certificate from bytes = from certificate after ReadCertificate. ~25 pairs of entry points are run on the same generated/mutated inputs and compared (acceptance, serialisation, remainder).",
+   text="Theorems (Props/C19.v): integer constructors identical; exact-length signature constructor accepts exactly what the reader consumes completely (all type codes); destination/router-identity readers are the generic reader plus filter; key certificate from bytes = from certificate after ReadCertificate; both key-type-specific keys-and-cert readers accept exactly the inputs on which the generic reader returns a value declaring their key sizes, with the same value and remainder. ~25 pairs of entry points are run on the same generated/mutated inputs (key certificates with and without excess payload) and compared (acceptance, serialisation, remainder).",
    design="8/C19", technique="Coq proof over executable model + pairwise differential oracle on the implementation",
    note=NOTE_COMMON),
  "C20": dict(
